@@ -484,6 +484,12 @@ def annotate(
                         ).format(path=path, new_path=new_path)
                     )
                 path = Path(new_path)
+                if path.is_symlink():
+                    # A (dangling) symbolic link at the FILE.license position:
+                    # never write a header through a link.
+                    raise OSError(
+                        _("'{path}' is a symbolic link").format(path=path)
+                    )
                 if not path.exists():
                     path.touch()
                     created_dot_license = True
